@@ -146,6 +146,30 @@ def interval(e, env, consts, issues):
             return (max(i[0] for i in ivs), max(i[1] for i in ivs))
         if fn == "int" and len(e.args) == 1:
             return interval(e.args[0], env, consts, issues)
+        if fn in FUNCS and isinstance(e.func, ast.Name) and len(_CALL_STACK) < 4:
+            callee = FUNCS[fn]
+            params = [a.arg for a in callee.args.args]
+            sel_param, sel_val, cenv = None, None, {}
+            for pname, arg in zip(params, e.args):
+                if isinstance(arg, ast.Constant) and isinstance(arg.value, str):
+                    sel_param, sel_val = pname, arg.value
+                else:
+                    cenv[pname] = interval(arg, env, consts, issues)
+            _CALL_STACK.append(fn)
+            try:
+                res = analyse_returns(callee, [], consts, selector=sel_param, base_env=cenv)
+            finally:
+                _CALL_STACK.pop()
+            lo, hi = INF, -INF
+            for sel, st, env2, iv, iss, kind in res:
+                if sel_param is not None and sel != sel_val:
+                    continue
+                issues.extend(iss)
+                if kind == "return":
+                    lo, hi = min(lo, iv[0]), max(hi, iv[1])
+            if lo <= hi:
+                return (lo, hi)
+            return (-INF, INF)
         if fn == "abs" and len(e.args) == 1:
             v = interval(e.args[0], env, consts, issues)
             return (0, max(abs(v[0]), abs(v[1])))
@@ -170,6 +194,8 @@ def interval(e, env, consts, issues):
             if b[0] <= 0 <= b[1]:
                 issues.append(Issue("zero-divisor", f"divisor `{ast.unparse(e.right)}` may be 0", e))
             if isinstance(op, ast.Mod):
+                if b[0] == b[1] == WMAX + 1 and a[1] > WMAX:
+                    issues.append(Issue("wrap", f"`{ast.unparse(e)}` discards multiples of 2^256 (dividend up to 2^{int(a[1]).bit_length() if not math.isinf(a[1]) else 'inf'})", e))
                 if b[0] >= 0 and b[1] > 0:
                     return (0, b[1] - 1)      # the zero divisor, if possible, is reported separately
                 return (-INF, INF)
@@ -212,11 +238,17 @@ def interval(e, env, consts, issues):
     return (-INF, INF)
 
 
-def analyse_returns(func_node, params_words, consts, selector=None):
+FUNCS = {}          # name -> FunctionDef of project functions that folding code may call (set by the rule)
+_CALL_STACK = []
+
+
+def analyse_returns(func_node, params_words, consts, selector=None, base_env=None):
     """Walk a function made of if/elif chains; yield (selector value, return node, env, result interval, issues).
     `selector` is the name of the parameter compared with string literals to dispatch (e.g. 'funct')."""
     results = []
     base = {p: (0, WMAX) for p in params_words}
+    if base_env:
+        base.update(base_env)
 
     def walk(stmts, env, sel):
         for st in stmts:
